@@ -772,7 +772,10 @@ def overlap_add(blk_sig, size=None, hop=None, wnd=None, normalize=True):
   # Finds the size from data, if needed
   if size is None:
     blk_sig = Stream(blk_sig)
-    size = len(blk_sig.peek())
+    try:
+      size = len(blk_sig.peek())
+    except StopIteration: # No blocks, nothing to overlap and add
+      return
   if hop is None:
     hop = size
 
@@ -816,7 +819,10 @@ def overlap_add(blk_sig, size=None, hop=None, wnd=None, normalize=True):
   # Finds the size from data, if needed
   if size is None:
     blk_sig = Stream(blk_sig)
-    size = len(blk_sig.peek())
+    try:
+      size = len(blk_sig.peek())
+    except StopIteration: # No blocks, nothing to overlap and add
+      return
   if hop is None:
     hop = size
 
